@@ -24,8 +24,8 @@ func (e *env[E, P, D, T]) bitReverse() {
 	// 2^21..2^27 use size-specialised tiled routines, > 2^27 a generic tiled routine, everything else the naive swap loop
 	if c.Thorough() {
 		lgs = append(lgs, 17, 18, 19, 20, 21, 22, 23, 24, 25, 26, 27) // 2^27 elements: 0.5 GB (31-bit fields) .. 6 GB (bw6-761)
-		if esz <= 4 {
-			lgs = append(lgs, 28) // the generic tiled routine (len > 2^27): 1 GB
+		if esz <= 8 {
+			lgs = append(lgs, 28) // the generic tiled routine (len > 2^27): 1 GB (31-bit fields), 2 GB (goldilocks)
 		}
 	} else {
 		lgs = append(lgs, 20, 21, 22)
